@@ -26,10 +26,10 @@ typedef __int128 i128;
 #define RG 4
 #define RC 8
 
-extern uint8_t HEAP[HEAP_SIZE];
-extern uint8_t STK[STK_SIZE];
-extern uint8_t GLB[];
-extern const uint8_t GLC[];
+extern uint64_t HEAP[HEAP_SIZE / 8];
+extern uint64_t STK[STK_SIZE / 8];
+extern uint64_t GLB[];
+extern const uint64_t GLC[];
 extern const uint64_t ir_glb_size, ir_glc_size;
 extern uint64_t SP;
 extern int EXC, EXC_TYPE, STOPPED, STOP_IS_FAILURE;
